@@ -1084,8 +1084,17 @@ func main() {
 		block := &types.Block{Height: 5}
 		n := (bound - block.Size()) / 199
 		pool := make([]*types.Transaction, 0, n)
+		pay := -1
 		for i := 0; i < n; i++ {
-			pool = append(pool, w.withSize(199, txOpt{unsigned: true}))
+			if pay >= 0 {
+				if tx := w.newTx(txOpt{unsigned: true, payload: pay}); tx.Size() == 199 {
+					pool = append(pool, tx)
+					continue
+				}
+			}
+			tx := w.withSize(199, txOpt{unsigned: true})
+			pay = len(tx.Payload)
+			pool = append(pool, tx)
 		}
 		w.runAdd(huge, 5, nil, pool, "limit_over_20000_demo")
 	}
